@@ -108,4 +108,20 @@ theorem C13_streams_stay_with_method {E : Wire} {z : Zstd} {D : Decoders} {srv :
   obtain ⟨km, hkm, a, b, c⟩ := (reachable_inv hz hk hW).owner cm hcm
   exact ⟨km, hkm, a, b, c rfl⟩
 
+/-- **C13, one endpoint per token** — the same cursor text is never accepted at the endpoints of two different
+    methods, on any two workers (cache states `i`, `j`), whatever call tokens, identities and inputs accompany it -/
+theorem C13_one_endpoint_per_token {E : Wire} {z : Zstd} {D : Decoders} {srv : Server} {keys : List KeyId} {W : World}
+    {i j : Nat} {r r' : Req} {effs effs' : List Effect} {acc acc' : Accepted}
+    (hE : E.Lawful) (hz : z.Lawful) (hk : srv.key ∉ keys) (hW : Reachable Shape.extracted E z D srv keys W)
+    (hknown : ReqKnown E (W.toks Shape.extracted z srv.key) keys r) (hnf : r.who.NulFreeDomain) (hnm : NulFree r.method)
+    (hknown' : ReqKnown E (W.toks Shape.extracted z srv.key) keys r') (hnf' : r'.who.NulFreeDomain)
+    (hnm' : NulFree r'.method) (hcur : r.cursor = r'.cursor)
+    (h : recover Shape.extracted E z D srv (W.caches i) r = (effs, .ok acc))
+    (h' : recover Shape.extracted E z D srv (W.caches j) r' = (effs', .ok acc')) : r.method = r'.method := by
+  apply Classical.byContradiction
+  intro hne
+  obtain ⟨_, _, _, cm', hcm', _, hm', _, htext', _⟩ := C13_method_bound hz hk hW hknown' hnf' hnm' h'
+  exact C13_foreign_rejected hE hz hk hW hknown hnf hnm cm' hcm' (by rw [hm']; exact fun e => hne e.symm)
+    (hcur.trans htext') h
+
 end VgiVerif.C13
